@@ -31,12 +31,14 @@ var (
 		{0x00, 0x02, 0x03, 0x04, 0x05, 0x01}, // 3 c1
 		{0x00, 0x02, 0x03, 0x04, 0x05, 0x02}, // 4 c2
 		{0x00, 0x02, 0x03, 0x04, 0x05, 0x03}, // 5 c3
+		{0x00, 0x02, 0x03, 0x04, 0x05, 0x04}, // 6 c4
+		{0x00, 0x02, 0x03, 0x04, 0x05, 0x05}, // 7 c5
 	}
-	hMACName = []string{"own", "router", "mcast", "c1", "c2", "c3"}
+	hMACName = []string{"own", "router", "mcast", "c1", "c2", "c3", "c4", "c5"}
 )
 
 const (
-	mOwn, mRouter, mMcast, mC1, mC2, mC3 = 0, 1, 2, 3, 4, 5
+	mOwn, mRouter, mMcast, mC1, mC2, mC3, mC4, mC5 = 0, 1, 2, 3, 4, 5, 6, 7
 )
 
 // IPv4 indices are relative to the configured LAN (see histCfg.ip4).
